@@ -7,7 +7,8 @@
             | 'R' 0|1            MIR_set_func_redef_permission
             | 'K' mask iface     MIR_link (iface: i = interpreter, g = generator, l = lazy generator);
                                  the import resolver resolves name n iff bit n of mask is set
-   decl    := 'i'n | 'e'n | 'f'n | 'F'n | 'D'n | 'P'n    import / export / forward / func / data / proto
+   decl    := 'i'n | 'e'n | 'f'n | 'F'n | 'B'n | 'D'n | 'P'n   import / export / forward / func / big func /
+                                                        data / proto
                                                         of name "n<n>"
 
    The k-th 'L' op creates module k.  Its function n returns 1000+16*k+n, its data n holds
@@ -111,6 +112,19 @@ static void build_module (MIR_context_t ctx, int k, char *decls) {
     case 'F': {
       MIR_item_t f = MIR_new_func_arr (ctx, name, 1, &i64, 0, NULL);
       MIR_append_insn (ctx, f, MIR_new_ret_insn (ctx, 1, MIR_new_int_op (ctx, 1000 + 16 * k + n)));
+      MIR_finish_func (ctx);
+      break;
+    }
+    case 'B': { /* the same function, too big to be inlined at link (> MIR_MAX_INSNS_FOR_INLINE) */
+      MIR_item_t f = MIR_new_func_arr (ctx, name, 1, &i64, 0, NULL);
+      MIR_reg_t r = MIR_new_func_reg (ctx, f->u.func, MIR_T_I64, "r");
+      MIR_append_insn (ctx, f,
+                       MIR_new_insn (ctx, MIR_MOV, MIR_new_reg_op (ctx, r), MIR_new_int_op (ctx, 1000 + 16 * k + n - 210)));
+      for (int j = 0; j < 210; j++)
+        MIR_append_insn (ctx, f,
+                         MIR_new_insn (ctx, MIR_ADD, MIR_new_reg_op (ctx, r), MIR_new_reg_op (ctx, r),
+                                       MIR_new_int_op (ctx, 1)));
+      MIR_append_insn (ctx, f, MIR_new_ret_insn (ctx, 1, MIR_new_reg_op (ctx, r)));
       MIR_finish_func (ctx);
       break;
     }
